@@ -175,15 +175,48 @@ impl T {
         }
         h
     }
+    /// trees are stored in replay files in the flat line format of the protocol (deep trees would
+    /// exceed serde_json's nesting limit as nested objects)
     pub fn to_json(&self) -> serde_json::Value {
-        use serde_json::json;
-        match self {
-            T::Term(p) => json!({"t": fjson(*p)}),
-            T::Chance(i, o) => json!({"c": i, "o": o.iter().map(|(w,t)| json!([fjson(*w), t.to_json()])).collect::<Vec<_>>()}),
-            T::Player(p, i, a) => json!({"p": if *p {1} else {2}, "i": i, "a": a.iter().map(|(x,t)| json!([x, t.to_json()])).collect::<Vec<_>>()}),
+        serde_json::json!(self.to_line())
+    }
+    pub fn parse_line(s: &str) -> Option<T> {
+        fn go<'a>(it: &mut std::str::SplitAsciiWhitespace<'a>) -> Option<T> {
+            match it.next()? {
+                "T" => Some(T::Term(f64::from_bits(u64::from_str_radix(it.next()?, 16).ok()?))),
+                "C" => {
+                    let info = match it.next()? {
+                        "-" => None,
+                        x => Some(x.parse().ok()?),
+                    };
+                    let n: usize = it.next()?.parse().ok()?;
+                    let mut outs = Vec::new();
+                    for _ in 0..n {
+                        let w = f64::from_bits(u64::from_str_radix(it.next()?, 16).ok()?);
+                        outs.push((w, go(it)?));
+                    }
+                    Some(T::Chance(info, outs))
+                }
+                "P" => {
+                    let one = it.next()? == "1";
+                    let info: u32 = it.next()?.parse().ok()?;
+                    let n: usize = it.next()?.parse().ok()?;
+                    let mut acts = Vec::new();
+                    for _ in 0..n {
+                        let a: u32 = it.next()?.parse().ok()?;
+                        acts.push((a, go(it)?));
+                    }
+                    Some(T::Player(one, info, acts))
+                }
+                _ => None,
+            }
         }
+        go(&mut s.split_ascii_whitespace())
     }
     pub fn from_json(v: &serde_json::Value) -> Option<T> {
+        if let Some(line) = v.as_str() {
+            return T::parse_line(line);
+        }
         if let Some(p) = v.get("t") {
             return Some(T::Term(fparse(p)?));
         }
